@@ -92,6 +92,12 @@ def gen_text(rng, params, prev_steps, env_tokens, allow_ws=True):
             parts.append("$(%s)" % rng.choice(env_tokens))
         else:
             parts.append(rng.choice(WORDS))
+        if "$(" in parts[-1] and rng.random() < 0.25:
+            # a token inside shell syntax that itself uses `$(` / brackets (command substitution,
+            # arithmetic, backticks, quoting): still a defined token, still to be replaced
+            parts[-1] = rng.choice(["$(expr %s + 1)", "$(dirname %s)", "$((%s * 2))", "`cat %s`", "\"%s\"",
+                                    "$(basename %s .dat)", "(%s)", "$(echo %s | wc -c)", "[%s]",
+                                    "$(ls %s %s)"]).replace("%s", parts[-1])
     return " ".join(parts)
 
 
